@@ -165,19 +165,30 @@ func VerifH_C06_damage() {
 		b.bytesField(3, z)
 		badFrame = frameWith("OSMData", b.b, nil, uint64(len(b.b)), 1)
 	}
+	// the damaged block is the first data block, the second one, or sits between two intact ones
+	pos := vRange("damagedPosition", 0, vParam("maxPosition", 2))
 	var data []byte
 	data = append(data, frame("OSMHeader", simpleHeader())...)
-	data = append(data, goodFrame...)
+	var before, after []osm.Object
+	if pos >= 1 {
+		data = append(data, goodFrame...)
+		before = good.expected()
+	}
 	data = append(data, badFrame...)
-	got, err := c06Scan(data, procs, 3)
+	if pos != 1 {
+		later := simpleBlock(1)
+		data = append(data, frame("OSMData", later.encode())...)
+		after = later.expected()
+	}
+	got, err := c06Scan(data, procs, 4)
 	vReach("scanned")
 	if kind == 9 {
 		vAssert(err == nil, "intact-zlib-block-succeeds")
-		vAssert(vSame(got, append(good.expected(), bad.expected()...)), "intact-zlib-block-objects")
+		vAssert(vSame(got, append(append(before, bad.expected()...), after...)), "intact-zlib-block-objects")
 		return
 	}
 	vAssert(err != nil, "damage-ends-in-error")
-	vAssert(vSame(got, good.expected()), "objects-of-intact-blocks-only")
+	vAssert(vSame(got, before), "objects-of-intact-blocks-only")
 }
 
 // VerifH_C06_header: unsupported required feature => error; supported => scan works.
